@@ -7,7 +7,8 @@ Import ListNotations.
 From MirV Require Import Mir.DocSpec Mir.CExpr C02.RowCheck C02.Table gen.InterpTable C02.InterpFacts
   C02.GvnCheck gen.GvnFoldTable C02.GvnFacts C02.MemRows
   C02.PeepholeDefs C02.PeepholeProofs gen.Peephole C02.PeepholeFacts
-  Mir.Opcode Mir.DocSpecInt C02.X86Sem C02.X86Check gen.X86Patterns C02.X86TableFacts.
+  Mir.Opcode Mir.DocSpecInt C02.X86Sem C02.X86Check gen.X86Patterns C02.X86TableFacts
+  C02.BuiltinCheck gen.X86Builtins C02.X86BuiltinFacts.
 
 (* Interpreter (mir-interp.c): for every row of the regenerated table (every value, compare, branch
    and overflow opcode) and ALL operand values on which MIR.md defines the instruction, the row's C
@@ -133,3 +134,28 @@ Theorem x86_compare_rows_sound :
       /\ uwrap 64 (regs st2 r) = d /\ (forall r', r' <> r -> regs st2 r' = regs st r') /\ memc st2 = memc st.
 Proof. exact x86_compare_uext8_sound. Qed.
 Print Assumptions x86_compare_rows_sound.
+
+(* Generator, x86-64: opcodes without an instruction pattern are executed by a call of a C function of the generator
+   itself (mir-gen-x86_64.c: target_machinize -> get_builtin -> mir_ui2f / mir_ui2d / mir_ui2ld / mir_ld2i; the
+   dispatched opcodes, the prototype types and the function bodies, with calls inlined and the implicit conversions of
+   the argument and of the returned value made explicit, are regenerated on every run).  For every such opcode with a
+   Coq meaning and ALL operand values the value the function returns is the documented one: in particular the
+   unsigned 64-bit integer is rounded ONCE, to nearest even, into the result format. *)
+Theorem x86_builtin_row_sound :
+  forall op s, In (op, s) x86_builtin_table -> ld_opcode op = false -> row_sound op s.
+Proof. exact x86_builtin_rows_sound. Qed.
+Print Assumptions x86_builtin_row_sound.
+
+(* the long double builtins (no Coq semantics for x87 arithmetic): each is, literally, the verified double row of the
+   interpreter table with `double` replaced by `long double` *)
+Theorem x86_builtin_ld_rows_are_double_twins :
+  forall op s d, In (op, s) x86_builtin_table -> ld_twin op = Some d ->
+  exists sd, In (d, sd) interp_table /\ cstmt_eqb sd (ld2d_stmt s) = true /\ row_sound d sd.
+Proof. exact x86_builtin_ld_rows. Qed.
+Print Assumptions x86_builtin_ld_rows_are_double_twins.
+
+(* every opcode target_machinize hands to get_builtin has such a function *)
+Theorem x86_builtin_table_total :
+  forall op, In op x86_builtin_codes -> exists s, In (op, s) x86_builtin_table.
+Proof. exact x86_builtin_rows_total. Qed.
+Print Assumptions x86_builtin_table_total.
